@@ -7,9 +7,9 @@ for sdir in /verif/seeded/C*/; do
   sid=$(basename $sdir); c=${sid:0:3}
   git -C /repo checkout -- .
   git -C /repo apply $sdir/patch.diff || { echo "$sid apply-failed" >> $out; continue; }
-  timeout 1800 /verif/check $c --tier quick > /tmp/diag_$sid.log 2>&1
+  timeout 1800 /verif/check $c --tier quick > /tmp/r3/diagall_$sid.log 2>&1
   ec=$?
-  printf "%s\t%s\t%s\t%s\t%s\n" $sid $c $ec $(grep -c "^VIOLATION" /tmp/diag_$sid.log) $(grep -c "no-failing-input-found" /tmp/diag_$sid.log) >> $out
+  printf "%s\t%s\t%s\t%s\t%s\n" $sid $c $ec $(grep -c "^VIOLATION" /tmp/r3/diagall_$sid.log) $(grep -c "no-failing-input-found" /tmp/r3/diagall_$sid.log) >> $out
   git -C /repo checkout -- .
 done
 git -C /repo checkout -- .
